@@ -434,11 +434,42 @@ def run_plan(plan: dict) -> dict:
     ch = common.make_chooser(plan)
     sim = sched.Sim(ch, trace_suffixes=(), max_steps=400000, uuid_salt=str(plan.get("run", 0)))
     dep = deploy.Deployment(sim, cfg["deployment"], cfg)
+    from optuna.pruners import _successive_halving as _sh
+
+    # monitor "bracket-isolation": the study view that Hyperband hands to a bracket's pruner
+    # stays on the bracket of the trial being judged (a function of study name and trial
+    # number) for the whole call - also when other threads use the same pruner object
+    orig_prune = _sh.SuccessiveHalvingPruner.prune
+    mixed: list[tuple] = []
+
+    def prune(self_: Any, study: Any, trial: Any) -> bool:
+        try:
+            d = object.__getattribute__(study, "__dict__")
+        except AttributeError:
+            d = {}
+        hb = d.get("pruner")
+        if "_bracket_id" not in d or not hasattr(hb, "_get_bracket_id"):
+            return orig_prune(self_, study, trial)
+        exp = hb._get_bracket_id(study, trial)
+        before = d["_bracket_id"]
+        r = orig_prune(self_, study, trial)
+        after = d["_bracket_id"]
+        sim.count("bracket_view_checked")
+        if (before != exp or after != exp) and not mixed:
+            mixed.append((trial.number, exp, before, after))
+        return r
+
+    _sh.SuccessiveHalvingPruner.prune = prune  # type: ignore[method-assign]
     try:
         with warnings.catch_warnings():
             warnings.simplefilter("ignore")
-            return _run(plan, sim, ch, dep)
+            res = _run(plan, sim, ch, dep)
+        if mixed and res.get("status") != "violation":
+            num, exp, before, after = mixed[0]
+            return common.result(sim, ch, "violation", "%s|%s|bracket-isolation|hyperband|view switched to another bracket" % (ID, cfg["deployment"]), "while trial number %d (bracket %r) was being judged, the bracket view handed to its bracket pruner was on bracket %r at the start and %r at the end of the call (shared between threads?)" % (num, exp, before, after), nontrivial=bool(res.get("nontrivial")))
+        return res
     finally:
+        _sh.SuccessiveHalvingPruner.prune = orig_prune  # type: ignore[method-assign]
         dep.close()
 
 
